@@ -420,6 +420,49 @@ func TestVerifWebApi(t *testing.T) {
 	}
 	close(ch)
 	wg.Wait()
+	// overlapping logins on one handler: right password of the administrator next to wrong passwords of a plain user.  Nobody
+	// may obtain a session (let alone an administrator's) with a wrong password, and the issued session names the caller.
+	storm := newWWorker(filepath.Join(scratch, "storm"))
+	keys := []string{}
+	for k := range wPw {
+		keys = append(keys, k)
+	}
+	sort.Strings(keys)
+	right, wrong := keys[0], keys[1]
+	storm.materialise(map[string]wUser{"Alice": {true, true, right}, "bob": {true, false, right}})
+	var swg sync.WaitGroup
+	for g := 0; g < 16; g++ {
+		swg.Add(1)
+		go func(g int) {
+			defer swg.Done()
+			for i := 0; i < 120; i++ {
+				user, pw, want := "Alice", right, true
+				if (g+i)%2 == 1 {
+					user, pw, want = "bob", wrong, false
+				}
+				body, _ := json.Marshal(map[string]string{"username": user, "password": wPw[pw]})
+				code, out, _ := storm.do("/api/authenticate", body)
+				wMu.Lock()
+				wReqs++
+				wMu.Unlock()
+				if !want && code == 200 {
+					wViolate("concurrent-login:wrong-password-got-session", fmt.Sprintf("user %s, reply %v", user, out), nil)
+				}
+				if want && code != 200 {
+					wViolate("concurrent-login:right-password-refused", fmt.Sprintf("user %s: HTTP %d %v", user, code, out), nil)
+				}
+				if code == 200 {
+					if tok, _ := out["session"].(string); tok != "" {
+						_, _, su, sadm := storm.sessions.Check(tok)
+						if su != user || sadm != (user == "Alice") {
+							wViolate("concurrent-login:session-names-another-account", fmt.Sprintf("login of %s returned a session for %s (admin=%v)", user, su, sadm), nil)
+						}
+					}
+				}
+			}
+		}(g)
+	}
+	swg.Wait()
 	var vs []wViolation
 	for _, v := range wViol {
 		vs = append(vs, v)
